@@ -81,6 +81,29 @@ def check_ptr(p: Any, obs: Dict[str, Any], probe_t: Any, where: str) -> List[str
                 if other == p or (str(other) == str(p)):
                     bad.append(f"{where}:equal-to-different-tokens")
                     break
+        # the (strict) ancestor relation is "is a proper prefix of the tokens", however either pointer was built
+        for j in range(len(toks)):
+            anc = JSONPointer.from_parts(toks[:j])
+            anc2 = JSONPointer(str(anc))
+            if not (p.is_relative_to(anc) and p.is_relative_to(anc2) and q1.is_relative_to(anc) and q2.is_relative_to(anc2)):
+                bad.append(f"{where}:not-relative-to-its-own-prefix")
+                break
+            if anc.is_relative_to(p) or anc2.is_relative_to(q2):
+                bad.append(f"{where}:prefix-relative-to-longer-pointer")
+                break
+        # equal pointers resolve alike (extension tokens included: whatever they mean, they mean it for every way of building the pointer)
+        doc0 = untag(probe_t)
+
+        def outcome(x: Any) -> Any:
+            try:
+                return ("ok", id(x.resolve(doc0)))
+            except JSONPointerResolutionError as e:
+                return ("resolution-error", type(e).__name__)
+            except BaseException as e:  # noqa: BLE001
+                return ("raised", type(e).__name__)
+
+        if len({outcome(x) for x in (p, q1, q2)}) != 1:
+            bad.append(f"{where}:equal-pointers-resolve-differently")
     except BaseException as e:  # noqa: BLE001
         bad.append(f"{where}:construct-raised-{type(e).__name__}")
     if not any(is_ext(t) for t in toks):
